@@ -177,6 +177,7 @@ class Interp:
         self.max_loop = 4096
         self.unspec_cast = False
         self.special_hooks = {}
+        self.round_float32_stores = True
         self.fast_if = True
         self.extra_roots = {}
         self.assume_casts_in_range = False
@@ -415,6 +416,12 @@ class Interp:
         if dtype in FLOAT_DTYPES:
             if is_sym(v) and z3.is_int(v):
                 return z3.ToReal(v)
+            if dtype == "float32" and V.is_conc_num(v) and not V.is_nonfinite(v) and self.round_float32_stores:
+                # a CONSTANT stored into a float32 array is rounded to single precision (symbolic values stay exact reals)
+                import numpy as np
+                from fractions import Fraction
+                r = Fraction(float(np.float32(float(v))))
+                return int(r) if r.denominator == 1 else r
             return v
         if dtype in INT_RANGES:
             lo, hi = INT_RANGES[dtype]
